@@ -214,7 +214,9 @@ impl Renderer {
                 ErrHandler::Exits(m) => format!("trap \"probe err_h; exit {m}\" ERR"),
                 ErrHandler::SourcesFailing => {
                     if !self.files.iter().any(|(n, _)| n == "errh.sh") {
-                        self.files.push(("errh.sh".to_string(), "simexit 3\ntrue\n".to_string()));
+                        // (only the first run of the handler has the failing command, so that a handler that
+                        // does re-enter itself does so once, not without end)
+                        self.files.push(("errh.sh".to_string(), "if [ -z \"$in_h\" ]; then\nin_h=1\nsimexit 3\nfi\ntrue\n".to_string()));
                     }
                     "trap \"probe errs_b %traps; . ./errh.sh; probe errs_e\" ERR".to_string()
                 }
